@@ -55,10 +55,10 @@ theorem ColForm.element_table_afterR (F : ColForm σ) (ap : Bool) (c : Cur) (t :
     (rs : List RText) (ht : F.specOK ap t) (hc : c.rest = F.afterR (t :: ts) rs) (hp : c.pastEnd = false) :
     ∃ c9, element ap c = .ok (F.mkElem t) c9 ∧ c9.rest = F.afterR ts rs ∧ c9.pastEnd = (ts.isEmpty && rs.isEmpty) := by
   obtain ⟨c0, hb, hr0, hp0, hpv0⟩ := cBefore_nl_comment c t.comment 'T' _ (by decide) (by decide) (by decide)
-    (show c.rest = '\n' :: (commentText t.comment ++ F.tableTextP t.name t.cols (F.docTailR ts rs)) by rw [hc]; rfl) hp ht.2.2.2
-  obtain ⟨c9, hrule, hQ⟩ := F.tableRule_okP ap c c0 t.name t.cols (F.docTailR ts rs)
+    (show c.rest = '\n' :: (commentText t.comment ++ F.tableTextP t.name t.cols t.note (F.docTailR ts rs)) by rw [hc]; rfl) hp ht.2.2.2.1
+  obtain ⟨c9, hrule, hQ⟩ := F.tableRule_okP ap c c0 t.name t.cols t.note (F.docTailR ts rs)
     (fun c9 => c9.rest = F.afterR ts rs ∧ c9.pastEnd = (ts.isEmpty && rs.isEmpty)) (cmList t.comment) hb hr0 hp0
-    hpv0 ht.1 ht.2.1 ht.2.2.1
+    hpv0 ht.1 ht.2.1 ht.2.2.1 ht.2.2.2.2
     (fun c7 hr7 hp7 => F.endRule_afterR ts rs c7 hr7 hp7)
   refine ⟨c9, ?_, hQ.1, hQ.2⟩
   unfold element alt ColForm.mkElem
@@ -145,11 +145,11 @@ theorem ColForm.parseDoc_tables_refs (F : ColForm σ) (ap : Bool) (ts : List (FT
   rw [expandTabsAux_plain 0 _ hnotab]
   let c0 : Cur := { rest := F.docTextR (t :: r) rs }
   obtain ⟨cb, hb, hrb, hpb, hpvb⟩ := cBefore_comment c0 t.comment 'T' _ (by decide) (by decide) (by decide)
-    (show c0.rest = commentText t.comment ++ F.tableTextP t.name t.cols (F.docTailR r rs) from rfl) rfl ht.2.2.2
+    (show c0.rest = commentText t.comment ++ F.tableTextP t.name t.cols t.note (F.docTailR r rs) from rfl) rfl ht.2.2.2.1
     (by intro p hpp; cases hpp)
-  obtain ⟨c1, hrule, hr1, hp1⟩ := F.tableRule_okP ap c0 cb t.name t.cols (F.docTailR r rs)
+  obtain ⟨c1, hrule, hr1, hp1⟩ := F.tableRule_okP ap c0 cb t.name t.cols t.note (F.docTailR r rs)
     (fun c9 => c9.rest = F.afterR r rs ∧ c9.pastEnd = (r.isEmpty && rs.isEmpty)) (cmList t.comment) hb hrb hpb
-    hpvb ht.1 ht.2.1 ht.2.2.1 (fun c7 hr7 hp7 => F.endRule_afterR r rs c7 hr7 hp7)
+    hpvb ht.1 ht.2.1 ht.2.2.1 ht.2.2.2.2 (fun c7 hr7 hp7 => F.endRule_afterR r rs c7 hr7 hp7)
   have hel : element ap c0 = .ok (F.mkElem t) c1 := by
     unfold element alt ColForm.mkElem
     rw [joinBefore_cmList] at hrule
@@ -391,9 +391,9 @@ theorem refBlueprints_refElems (l : List RText) : refBlueprints (l.map mkRefElem
 
 theorem ColForm.build_tables_refs (F : ColForm σ) (ap : Bool) (ts : List (FTab σ)) (rs : List RSpec)
     (hr : F.Resolvable ts) (hok : ∀ t ∈ ts, F.allOK ap t.cols) (hin : ∀ r ∈ rs, F.RSpecIn ts r) (hnd : rs.Nodup)
-    (hno : ∀ t ∈ ts, ∀ s ∈ t.cols, F.irefs s = []) :
+    (hno : ∀ t ∈ ts, ∀ s ∈ t.cols, F.irefs s = []) (hnn : ∀ t ∈ ts, norm t.note = t.note) :
     buildDatabase ap (ts.map F.mkElem ++ (rs.map (F.rtext ts)).map mkRefElem) = .ok (F.mkDb ap ts rs) := by
-  have hT : tableBps (ts.map F.mkElem ++ (rs.map (F.rtext ts)).map mkRefElem) = ts.map fun t => F.tableBpC t.name t.cols t.comment := by
+  have hT : tableBps (ts.map F.mkElem ++ (rs.map (F.rtext ts)).map mkRefElem) = ts.map fun t => F.tableBpC t.name t.cols t.note t.comment := by
     simp [tableBps, ColForm.mkElem, mkRefElem, List.filterMap_append, List.filterMap_map, Function.comp_def]
   have hE : enumBps (ts.map F.mkElem ++ (rs.map (F.rtext ts)).map mkRefElem) = [] := by
     simp [enumBps, ColForm.mkElem, mkRefElem, List.filterMap_append, List.filterMap_map, Function.comp_def]
@@ -413,7 +413,7 @@ theorem ColForm.build_tables_refs (F : ColForm σ) (ap : Bool) (ts : List (FTab 
       simp [F.norefs s (hno t ht s hs)]
     rw [refBlueprints_append, h1, refBlueprints_refElems]
     simp [List.map_map, Function.comp_def]
-  have hF := F.foldlM_tables ap [] ts [] (by simpa using hr.tnames) hok (fun t _ => F.noShadow_nil t)
+  have hF := F.foldlM_tables ap [] ts [] (by simpa using hr.tnames) hok (fun t _ => F.noShadow_nil t) hnn
   simp only [List.map_nil, List.nil_append] at hF
   have hRf := F.foldlM_refs ts hr { tables := ts.map F.mkTable, enums := [], allowProps := ap, groups := [], sticky := [], project := none }
     rfl rs [] (by simpa using hin) (by simpa using hnd)
@@ -476,8 +476,8 @@ theorem ColForm.renderDb_tables_refs (F : ColForm σ) (ap : Bool) (ts : List (FT
       = .ok (ts.map fun t => F.tabText t) := by
     have := range_mapM_form F.mkTable "table position" (fun t => F.tabText t) ts
       (fun i t => Dbml.renderTableBody (F.mkDb ap ts rs) i t)
-      (fun i t ht => F.renderTableBody_ok (F.mkDb ap ts rs) i t.name t.cols t.comment
-        (F.inl_plain _ hni i t.cols (hno t ht)) (hok t ht).2.1 (hok t ht).2.2.1 (hok t ht).2.2.2)
+      (fun i t ht => F.renderTableBody_ok (F.mkDb ap ts rs) i t.name t.cols t.comment t.note
+        (F.inl_plain _ hni i t.cols (hno t ht)) (hok t ht).2.1 (hok t ht).2.2.1 (hok t ht).2.2.2.1 (hok t ht).2.2.2.2.1)
     unfold Dbml.renderTable
     exact this
   have hrefs : ((F.mkDb ap ts rs).refs.filter (!·.inline)).mapM (Dbml.renderRef (F.mkDb ap ts rs))
@@ -547,7 +547,7 @@ theorem form_refs_roundtrip (F : ColForm σ) (ap : Bool) (ts : List (FTab σ)) (
       | some s => simp [removeBom, ColForm.docTextR, ColForm.tabTextP, commentText, hcmt]
   rw [hbom, hp]
   simp only []
-  rw [F.build_tables_refs ap ts rs hres (fun t ht => (hok t ht).2.1) hin hnd hno]
+  rw [F.build_tables_refs ap ts rs hres (fun t ht => (hok t ht).2.1) hin hnd hno (fun t ht => (hok t ht).2.2.2.2.2.2)]
 
 end C02
 end PyDBML
